@@ -303,6 +303,47 @@ async def _check_channels(a, b, out, desc, cap, hb):
                             f"received {got} within 5 s", desc)
         else:
             out.counters["messages_exchanged"] += 2
+            if ch.maxRetransmits is None and ch.maxPacketLifeTime is None and twin.readyState == "open" and ch.readyState == "open":
+                await burst(x, y, ch, twin, got, out, desc, hb)
+
+
+async def burst(x, y, ch, twin, got, out, desc, hb):
+    """A reliable channel over the whole real stack (SCTP over DTLS over ICE on loopback): empty, tiny, non-ASCII, multi-fragment
+    and binary messages both ways arrive exactly once, intact - in order on an ordered channel."""
+    tagx, tagy = f"{x.name}{ch.id}", f"{y.name}{ch.id}"
+
+    def msgs(tag):
+        return [f"{tag}:0", "", b"", f"{tag}:\u00e9\u4e16\U0001f600" * 40, bytes(range(256)) * 230 + tag.encode(), f"{tag}:" + "x" * 20000, bytes([7]) + tag.encode(),
+                f"{tag}:last"]
+
+    sent_x, sent_y = msgs(tagx), msgs(tagy)
+    del got["xy"][:], got["yx"][:]
+    try:
+        for m1, m2 in zip(sent_x, sent_y):
+            ch.send(m1)
+            twin.send(m2)
+    except Exception as exc:
+        out.fail("channel-send-raises", f"{type(exc).__name__}: {exc} on channel {ch.label!r} (burst)", desc, exc)
+        return
+    t1 = time.monotonic()
+    while (len(got["xy"]) < len(sent_x) or len(got["yx"]) < len(sent_y)) and time.monotonic() - t1 < 10.0:
+        await asyncio.sleep(0.02)
+    out.counters["bursts_exchanged"] += 1
+    key = (lambda m: (type(m).__name__, m)) if ch.ordered else None
+    for sent, rec, who in ((sent_x, got["xy"], x.name), (sent_y, got["yx"], y.name)):
+        same = rec == sent if ch.ordered else sorted(map(repr, rec)) == sorted(map(repr, sent))
+        if same and all(type(a) is type(b) for a, b in zip(sorted(rec, key=repr), sorted(sent, key=repr))):
+            out.counters["messages_exchanged"] += len(sent)
+            continue
+        foreign = [m for m in rec if m not in sent]
+        extra = len(rec) > len(sent) or any(rec.count(m) > sent.count(m) for m in rec)
+        summary = [(type(m).__name__, len(m), (m[:12] if isinstance(m, str) else m[:8].hex())) for m in rec[:10]]
+        if foreign or extra or (len(rec) == len(sent)):
+            out.fail("channel-burst", f"channel {ch.label!r} (id {ch.id}, ordered={ch.ordered}) messages from {who}: sent {len(sent)}, received {len(rec)}: "
+                     f"{'altered/unknown messages' if foreign else 'duplicates' if extra else 'wrong order or type'} {summary}", desc)
+        else:
+            cap_verdict(out, hb, "channel-burst", f"channel {ch.label!r} (id {ch.id}) messages from {who}: only {len(rec)} of {len(sent)} arrived "
+                        f"within 10 s", desc)
 
 
 def renumber(text, unknown_codec=False):
